@@ -3216,7 +3216,9 @@ define_enum_type(InterrogateType &itype, CPPEnumType *cpptype) {
         nout << "enum value ";
         element->output(nout, 0, &parser, true);
         nout << " has invalid definition!\n";
-        return;
+        // There is no value to record for this enumerator; the others
+        // are still part of the enum.
+        continue;
       } else {
         next_value = result.as_integer();
       }
